@@ -252,7 +252,7 @@ def run (j : Json) : Except String Json := do
   -- the side conditions of `C09.emitted_module_accepted_partial`
   let srcOk := defSrcs.all (Emit.classSrcOk X) && Emit.classSrcOk X ⟨name, desc, s⟩
   let clean := PyGram.textClean text
-  let nestOk := PyGram.nestOk X text
+  let nestOk := Emit.schemaDepthOk defSrcs ⟨name, desc, s⟩
   let recogReal : Option PyGram.Verdict := match optField j "code" with
     | some (.str c) => some (PyGram.recognise X c.toList)
     | _ => none
@@ -319,6 +319,8 @@ def run (j : Json) : Except String Json := do
     ("recogReal", match recogReal with | some v => Json.str v.name | none => Json.null),
     ("mutantVerdicts", strs mutantVerdicts),
     ("oracleOk", Json.bool oracleOk),
+    ("canon", Schema.toJson s),
+    ("canonDefs", Json.arr (defsDict.map fun (n, d) => Json.arr #[Json.str n, Schema.toJson d]).toArray),
     ("fieldVerdicts", Json.arr fieldVerdicts.toArray),
     ("srcOk", Json.bool srcOk), ("clean", Json.bool clean), ("nestOk", Json.bool nestOk),
     ("nameIssue", Json.bool nameIssue),
